@@ -236,3 +236,102 @@ func writeTowers(repoRoot, srcRoot, verifRoot string, check bool) int {
 	}
 	return stale
 }
+
+// ---------------- point contracts ----------------
+
+type pointCfg struct {
+	Rel   string // ecc/bn254
+	File  string // g1.go | g2.go
+	Point string // G1 | G2
+	Coord string // fp.Element | fptower.E2 | fptower.E4
+	A     string // curve coefficient a (published): 0, or 1 for the stark curve
+	BJac  string // constant hard-coded in the Jacobian IsOnCurve, or bCurveCoeff / "" (not under contract)
+}
+
+var pointCfgs = []pointCfg{
+	{"ecc/bn254", "g1.go", "G1", "fp.Element", "0", "3"},
+	{"ecc/bls12-381", "g1.go", "G1", "fp.Element", "0", "4"},
+	{"ecc/bls12-377", "g1.go", "G1", "fp.Element", "0", "1"},
+	{"ecc/bls24-315", "g1.go", "G1", "fp.Element", "0", "1"},
+	{"ecc/bls24-317", "g1.go", "G1", "fp.Element", "0", "4"},
+	{"ecc/bw6-633", "g1.go", "G1", "fp.Element", "0", "4"},
+	{"ecc/bw6-761", "g1.go", "G1", "fp.Element", "0", "(-1)"},
+	{"ecc/grumpkin", "g1.go", "G1", "fp.Element", "0", "bCurveCoeff"},
+	{"ecc/secp256k1", "g1.go", "G1", "fp.Element", "0", "bCurveCoeff"},
+	{"ecc/bn254", "g2.go", "G2", "fptower.E2", "0", ""},
+	{"ecc/bls12-381", "g2.go", "G2", "fptower.E2", "0", ""},
+	{"ecc/bls12-377", "g2.go", "G2", "fptower.E2", "0", ""},
+	{"ecc/bls24-315", "g2.go", "G2", "fptower.E4", "0", ""},
+	{"ecc/bls24-317", "g2.go", "G2", "fptower.E4", "0", ""},
+	{"ecc/bw6-633", "g2.go", "G2", "fp.Element", "0", "8"},
+	{"ecc/bw6-761", "g2.go", "G2", "fp.Element", "0", "4"},
+}
+
+func genPoint(srcRoot string, c pointCfg, tmpl string) string {
+	dir := filepath.Join(srcRoot, c.Rel)
+	b, _ := os.ReadFile(filepath.Join(dir, c.File))
+	pkg := ""
+	fmt.Sscanf(after(string(b), "\npackage "), "%s", &pkg)
+	s := tmpl
+	s = strings.ReplaceAll(s, "PKG", pkg)
+	s = strings.ReplaceAll(s, "POINTLOW", strings.ToLower(c.Point))
+	s = strings.ReplaceAll(s, "POINT", c.Point)
+	s = strings.ReplaceAll(s, "COORD", c.Coord)
+	s = strings.ReplaceAll(s, "ACOEFF", c.A)
+	baff := "bCurveCoeff"
+	if c.Point == "G2" {
+		baff = "bTwistCurveCoeff"
+	}
+	s = strings.ReplaceAll(s, "BAFF", baff)
+	if c.BJac == "" {
+		// drop the Jacobian IsOnCurve contract
+		i := strings.Index(s, "//@ func "+c.Point+"Jac.IsOnCurve")
+		j := strings.Index(s[i:], "//@ end\n")
+		s = s[:i] + s[i+j+len("//@ end\n")+1:]
+	} else {
+		s = strings.ReplaceAll(s, "BJAC", c.BJac)
+	}
+	return strings.TrimRight(s, "\n") + "\n"
+}
+
+func writePoints(repoRoot, srcRoot, verifRoot string, check bool) int {
+	b, err := os.ReadFile(filepath.Join(verifRoot, "contracts", "point", "g1.go.tmpl"))
+	if err != nil {
+		fmt.Fprintln(os.Stderr, err)
+		os.Exit(2)
+	}
+	stale := 0
+	{
+		// hand-written contracts of the stark curve
+		sb, err := os.ReadFile(filepath.Join(verifRoot, "contracts", "point", "stark.go"))
+		if err == nil {
+			dst := filepath.Join(repoRoot, "ecc/stark-curve", "zz_verif_contracts_g1.go")
+			if check {
+				cur, _ := os.ReadFile(dst)
+				if string(cur) != string(sb) {
+					fmt.Println("stale:", dst)
+					stale++
+				}
+			} else {
+				os.MkdirAll(filepath.Dir(dst), 0o755)
+				os.WriteFile(dst, sb, 0o644)
+			}
+		}
+	}
+	for _, c := range pointCfgs {
+		txt := genPoint(srcRoot, c, string(b))
+		dst := filepath.Join(repoRoot, c.Rel, "zz_verif_contracts_"+strings.ToLower(c.Point)+".go")
+		if check {
+			cur, _ := os.ReadFile(dst)
+			if string(cur) != txt {
+				fmt.Println("stale:", dst)
+				stale++
+			}
+			continue
+		}
+		os.MkdirAll(filepath.Dir(dst), 0o755)
+		os.WriteFile(dst, []byte(txt), 0o644)
+		fmt.Println("wrote", dst)
+	}
+	return stale
+}
